@@ -43,7 +43,7 @@ inductive Deco
   | setter (x : Name)                      -- `@x.setter`
   | deleter (x : Name)                     -- `@x.deleter`
   | overload                               -- `@overload` with `from typing import overload`
-  | opaque (n : Name)                      -- `@n` / `@n(...)`: defined in the package, returns its argument
+  | ident (n : Name)                       -- `@n` / `@n(...)`: defined in the package, returns its argument
   | unnamed                                -- an expression that is not a dotted name (`@_decos[0]`), returns its argument
   deriving DecidableEq, Repr, Inhabited
 
@@ -86,16 +86,13 @@ def envGet (env : ClassEnv) (i : Nat) : List Base :=
   | some p => p.2
   | none => []
 
-mutual
 /-- every external base name reachable from `bases` (fuel bounds the walk; hierarchies are acyclic) -/
 def extNames (env : ClassEnv) : Nat → List Base → List Name
-  | _, [] => []
-  | fuel, b :: bs => extNamesOf env fuel b ++ extNames env fuel bs
-def extNamesOf (env : ClassEnv) : Nat → Base → List Name
-  | _, .ext n => [n]
-  | 0, .user _ => []
-  | fuel+1, .user i => extNames env fuel (envGet env i)
-end
+  | 0, bases => bases.flatMap fun b => match b with | .ext n => [n] | .user _ => []
+  | fuel+1, bases => bases.flatMap fun b =>
+      match b with
+      | .ext n => [n]
+      | .user i => extNames env fuel (envGet env i)
 
 /-- What is compared between the two sides for one bound name. -/
 inductive KindClass
@@ -188,7 +185,7 @@ def dotted : Deco → Option (List Name)
   | .setter x => some [x, sSetter]
   | .deleter x => some [x, sDeleter]
   | .overload => some [sOverload]
-  | .opaque n => some [n]
+  | .ident n => some [n]
   | .unnamed => none
 
 /-- `parent.expandName('.'.join(deco_name)) in ('typing.overload', 'typing_extensions.overload')`:
@@ -506,7 +503,7 @@ def applyDeco (ns : Ns) (d : Deco) (o : PyObj) : Option PyObj :=
     | some (.prop g) => some (.prop g)      -- `type(self)(self.fget, fset, self.fdel, self.__doc__)`: a NEW property, same getter
     | _ => none
   | .overload => some .foreign
-  | .opaque _ => some o
+  | .ident _ => some o
   | .unnamed => some o
 
 /-- decorators are applied from the innermost (last written) outwards -/
@@ -610,17 +607,19 @@ alike by `_STD_LIB_EXCEPTIONS` and by `builtins`. -/
 namespace Subset
 open Ir
 
-def isDesc : Deco → Bool
-  | .builtin _ _ => true
-  | _ => false
+/-- the descriptor class a decorator builds, if any -/
+def descOf : Deco → Option Desc
+  | .builtin d _ => some d
+  | _ => none
 
-def isPropertyDeco : Deco → Bool
-  | .builtin .property _ => true
-  | _ => false
+/-- the descriptor decorators of a list, outermost first -/
+def descs (ds : List Deco) : List Desc := ds.filterMap descOf
+
+def isDesc (d : Deco) : Bool := (descOf d).isSome
 
 def decoOk (inClass : Bool) : Deco → Bool
   | .builtin _ q => inClass && !q
-  | .opaque n => !Builder.endsWith n Builder.sProperty && !Builder.endsWith n Builder.sPropertyCap
+  | .ident n => !Builder.endsWith n Builder.sProperty && !Builder.endsWith n Builder.sPropertyCap
       && n != Builder.sClassmethod && n != Builder.sStaticmethod
   | .unnamed => true
   | .setter _ => false
@@ -628,11 +627,11 @@ def decoOk (inClass : Bool) : Deco → Bool
   | .overload => false
 
 def decosOk (inClass : Bool) (ds : List Deco) : Bool :=
-  ds.all (decoOk inClass) && (ds.filter isDesc).length ≤ 1
+  ds.all (decoOk inClass) && (descs ds).length ≤ 1
 
 /-- decorators that hand back their argument (class decorators of the subset) -/
 def transparent : Deco → Bool
-  | .opaque _ => true
+  | .ident _ => true
   | .unnamed => true
   | _ => false
 
@@ -659,8 +658,8 @@ def checkStmt (c : Ctx) (sn : Seen) : Stmt → Option Seen
   | .funcDef n _ decos _ =>
     if sn.names.contains n || !decosOk c.inClass decos then none
     else some { names := sn.names ++ [n],
-                plain := if c.inClass && !decos.any isDesc then sn.plain ++ [n] else sn.plain,
-                curProp := decos.any isPropertyDeco }
+                plain := if c.inClass && (descs decos).isEmpty then sn.plain ++ [n] else sn.plain,
+                curProp := (descs decos).contains .property }
   | .assign n _ _ =>
     if sn.names.contains n || (c.inClass && c.inheritedNonAttr.contains n) then none
     else some { names := sn.names ++ [n], plain := sn.plain, curProp := false }
